@@ -3,9 +3,10 @@ CONSTANTS
   AMax = 1
   AMaxCG = 1
   KMax = 3
+  Thin = 12
   Wide = FALSE
   BsBound = 20
-  Methods = {"cg", "bicgstab.right", "gmres.right.K"}
+  Methods = {"cg", "bicgstab.right", "gmres.right.K", "richardson"}
 INIT Init
 NEXT Next
 INVARIANTS ProgMatchesRef TerminatesAtN CarriedResidual GmresMonotone
